@@ -8,11 +8,12 @@ namespace Dot11
 /-- everything the C01 / C02 / C03 theorems need to know about a successful parse -/
 theorem parseWith_spec (cls : String) (lay : Layout) (b : Bytes) :
     (∃ d i, parseWith cls lay b = .ok (d, i) ∧ d.WF ∧ d.cls = cls ∧ d.lay = lay ∧ (∀ o ∈ d.opts, CanonOpt o)
-        ∧ wireSize d.opts ≤ b.length ∧ InnerShorter i b ∧ (lay.tagged = false → d.opts = [] ∧ d.optSize = 0))
+        ∧ wireSize d.opts ≤ b.length ∧ InnerShorter i b ∧ (lay.tagged = false → d.opts = [] ∧ d.optSize = 0)
+        ∧ (¬ ((lay.fam = .mgmt ∨ lay.fam = .data) ∧ bothDS d.hdr = true) → d.addr4 = zeros 6))
     ∨ parseWith cls lay b = .throw .malformedPacket := by
   unfold parseWith
   rcases parseBase_spec b with ⟨h, eh, hl, _, hb⟩ | ⟨eh, _⟩
-  · rcases parseExt_spec lay.fam b h hb with ⟨e, a, off, ee, el, al, offle, off10, _⟩ | ee
+  · rcases parseExt_spec lay.fam b h hb with ⟨e, a, off, ee, el, al, offle, off10, _, _, _, ha2⟩ | ee
     · rcases Cursor.skip_spec (Cursor.ofBytes b) off (Cursor.ofBytes_inv b) with ⟨c1, e1, i1, s1, _⟩ | ⟨e1, hlt⟩
       · rcases readChunks_spec lay.body c1 i1 with ⟨body, c2, e2, i2, l2, s2, _⟩ | ⟨e2, _⟩
         · have hsz : c2.size < b.length := by
@@ -46,15 +47,15 @@ theorem parseWith_spec (cls : String) (lay : Layout) (b : Bytes) :
                 left
                 by_cases hwep : (byteAt h 1 / 64 % 2 == 1) = true
                 · simp only [hwep, ↓reduceIte]
-                  exact ⟨_, _, rfl, hwf, rfl, rfl, hc, hws, Nat.le_of_lt hr, hnt⟩
+                  exact ⟨_, _, rfl, hwf, rfl, rfl, hc, hws, Nat.le_of_lt hr, hnt, ha2⟩
                 · simp only [hwep, Bool.false_eq_true, ↓reduceIte]
-                  exact ⟨_, _, rfl, hwf, rfl, rfl, hc, hws, hr, hnt⟩
+                  exact ⟨_, _, rfl, hwf, rfl, rfl, hc, hws, hr, hnt, ha2⟩
               · simp only [hb2, Bool.false_eq_true, ↓reduceIte]
                 left
-                exact ⟨_, _, rfl, hwf, rfl, rfl, hc, hws, trivial, hnt⟩
+                exact ⟨_, _, rfl, hwf, rfl, rfl, hc, hws, trivial, hnt, ha2⟩
             · simp only [hp, Bool.false_eq_true, ↓reduceIte]
               left
-              exact ⟨_, _, rfl, hwf, rfl, rfl, hc, hws, trivial, hnt⟩
+              exact ⟨_, _, rfl, hwf, rfl, rfl, hc, hws, trivial, hnt, ha2⟩
           · right; simp only [e3]
         · right; simp only [eh, ee, e1, e2, bind, Out.bind]
       · right; simp only [eh, ee, e1, bind, Out.bind]
@@ -91,14 +92,14 @@ theorem dot11_fromBytes_safe (b : Bytes) : ParseSafe (fromBytes b) := by
 /-- **C01 / chain termination**: the inner PDU of a data frame is built on strictly fewer bytes -/
 theorem dot11_parse_consumes (cls : String) (lay : Layout) (b : Bytes) (d : Dot11) (i : Inner)
     (h : parseWith cls lay b = .ok (d, i)) : InnerShorter i b := by
-  rcases parseWith_spec cls lay b with ⟨d', i', e, _, _, _, _, _, hi, _⟩ | e
+  rcases parseWith_spec cls lay b with ⟨d', i', e, _, _, _, _, _, hi, _, _⟩ | e
   · rw [h] at e; injection e with e; injection e with _ e2; rw [e2]; exact hi
   · rw [h] at e; cases e
 
 /-- a parsed object is well-formed (the raw structs have their sizes, `options_size_` is the options' wire size) -/
 theorem dot11_parse_WF (cls : String) (lay : Layout) (b : Bytes) (d : Dot11) (i : Inner)
     (h : parseWith cls lay b = .ok (d, i)) : d.WF ∧ (∀ o ∈ d.opts, CanonOpt o) ∧ wireSize d.opts ≤ b.length := by
-  rcases parseWith_spec cls lay b with ⟨d', i', e, hwf, _, _, hc, hw, _, _⟩ | e
+  rcases parseWith_spec cls lay b with ⟨d', i', e, hwf, _, _, hc, hw, _, _, _⟩ | e
   · rw [h] at e; injection e with e; injection e with e1 _; rw [e1]; exact ⟨hwf, hc, hw⟩
   · rw [h] at e; cases e
 
